@@ -22,6 +22,8 @@ LEVEL_TEXT = (
     "efflux, exponential growth, constant drift), are run through Simulator.simulate_to_steady_state and "
     "scan.steady_state. A reported success must equal the analytic steady state within 100 x tolerance with balanced "
     "fluxes; networks without a steady state must give a failure value."
+    " Added: empty pools as start, the search continued after a segment shorter than / equal to / longer than "
+    "its own step, the search after a failed search, fast growth (k up to 50). "
 )
 LEVEL_NOTE = "trusted: numpy.linalg.solve for the analytic steady state; a *failure* reported for a network that has a steady state (e.g. relative norm with a zero-valued variable) is not counted as a violation"
 RULE = (
